@@ -433,7 +433,10 @@ sds_2byte_read (SF_PRIVATE *psf, SDS_PRIVATE *psds)
 		} ;
 
 	if ((k = (int) psf_fread (psds->read_data, 1, SDS_BLOCK_SIZE, psf)) != SDS_BLOCK_SIZE)
-		psf_log_printf (psf, "*** Warning : short read (%d != %d).\n", k, SDS_BLOCK_SIZE) ;
+	{	psf_log_printf (psf, "*** Warning : short read (%d != %d).\n", k, SDS_BLOCK_SIZE) ;
+		/* Do not decode what an earlier block left in the buffer. */
+		memset (psds->read_data + k, 0, SDS_BLOCK_SIZE - k) ;
+		} ;
 
 	if (psds->read_data [0] != 0xF0)
 	{	printf ("Error A : %02X\n", psds->read_data [0] & 0xFF) ;
@@ -477,7 +480,10 @@ sds_3byte_read (SF_PRIVATE *psf, SDS_PRIVATE *psds)
 		} ;
 
 	if ((k = (int) psf_fread (psds->read_data, 1, SDS_BLOCK_SIZE, psf)) != SDS_BLOCK_SIZE)
-		psf_log_printf (psf, "*** Warning : short read (%d != %d).\n", k, SDS_BLOCK_SIZE) ;
+	{	psf_log_printf (psf, "*** Warning : short read (%d != %d).\n", k, SDS_BLOCK_SIZE) ;
+		/* Do not decode what an earlier block left in the buffer. */
+		memset (psds->read_data + k, 0, SDS_BLOCK_SIZE - k) ;
+		} ;
 
 	if (psds->read_data [0] != 0xF0)
 	{	printf ("Error A : %02X\n", psds->read_data [0] & 0xFF) ;
@@ -521,7 +527,10 @@ sds_4byte_read (SF_PRIVATE *psf, SDS_PRIVATE *psds)
 		} ;
 
 	if ((k = (int) psf_fread (psds->read_data, 1, SDS_BLOCK_SIZE, psf)) != SDS_BLOCK_SIZE)
-		psf_log_printf (psf, "*** Warning : short read (%d != %d).\n", k, SDS_BLOCK_SIZE) ;
+	{	psf_log_printf (psf, "*** Warning : short read (%d != %d).\n", k, SDS_BLOCK_SIZE) ;
+		/* Do not decode what an earlier block left in the buffer. */
+		memset (psds->read_data + k, 0, SDS_BLOCK_SIZE - k) ;
+		} ;
 
 	if (psds->read_data [0] != 0xF0)
 	{	printf ("Error A : %02X\n", psds->read_data [0] & 0xFF) ;
